@@ -660,6 +660,8 @@ fn mmap_op(op: &Value, slots: &Slots) -> Value {
                     other::<[u64; 3]>(size)
                 } else if elem == 4096 {
                     other::<crate::graphs::Big>(size)
+                } else if elem == 0 {
+                    other::<()>(size) // zero-sized elements: must be refused
                 } else if elem == 8192 {
                     other::<[u64; 1024]>(size)
                 } else if elem == 16384 {
